@@ -36,6 +36,7 @@ def erased(nodes, v, fmt):
 
 class Check(PropCheck):
     pid = 'C16'
+    pure_predicate = True
     tol = 2.0 ** -50
     rule = ('9 formats x trees with every mixture of named/unnamed nodes, present/absent lengths and comments on leaves, internal nodes '
             'and the root, single nodes, unary chains, polytomies (parsed and API-built, also after edits); per format: text, re-parsed '
